@@ -448,6 +448,34 @@ func (e *Env) call(x *ECall) Val {
 		}
 		alloc0 := e.m().allocNow(e.g.entry)
 		return Val{T: fmt.Sprintf("(forall ((fr Int)) (! (=> (< (root fr) %s) (= (select %s fr) (select %s fr))) :pattern ((select %s fr))))", alloc0, b, a, b), Ty: tBool}
+	case "kept":
+		// kept("ghost"): the whole ghost is as it was at entry
+		k, ok := x.Args[0].(*EStr)
+		if !ok {
+			e.fail("kept(\"ghost name\")")
+		}
+		gd, known := e.g.specs.Ghosts[k.V]
+		if !known || gd.Kind != "ghost" {
+			e.fail("kept: %s is not a ghost", k.V)
+		}
+		var sorts []Sort
+		for _, prm := range gd.Params {
+			pt := e.g.resolveType(prm, e.pkg)
+			if pt == nil {
+				e.fail("kept: cannot resolve %s", prm)
+			}
+			sorts = append(sorts, sortOf(pt))
+		}
+		rt := e.g.resolveType(gd.Result, e.pkg)
+		if rt == nil {
+			e.fail("kept: cannot resolve %s", gd.Result)
+		}
+		srt := ghostSort(sorts, sortOf(rt))
+		a, b := e.old.Get("G."+gd.Name, srt), e.now.Get("G."+gd.Name, srt)
+		if a == b {
+			return Val{T: "true", Ty: tBool}
+		}
+		return Val{T: Eq(a, b), Ty: tBool}
 	case "fntag":
 		k, ok := x.Args[0].(*EStr)
 		if !ok {
